@@ -1097,6 +1097,8 @@ func main() {
 		run(c, caseT{Kind: "model", Rows: []BaseRow{{A: 5000, B: i64(10000), S: "a"}}, Exprs: []*Expr{{Op: "mod", A: arith("Add", f(0), lit(100)), B: f(1)}}})
 		run(c, caseT{Kind: "model", Rows: []BaseRow{{A: 100000000, D: &dtxt, S: "a"}}, Exprs: []*Expr{arith("Add", f(5), f(0))}})
 		run(c, caseT{Kind: "model", Rows: []BaseRow{{A: 1, S: "a"}}, Exprs: []*Expr{{Op: "intdiv", A: lit(-500), B: lit(128)}}})
+		// GREATEST/LEAST go through float64: (2^64-1) DIV 8 = 2305843009213693951 comes back as ...952 (a valid BIGINT; the model abstains beyond 2^53)
+		run(c, caseT{Kind: "model", Rows: []BaseRow{{A: 8, U: 18446744073709551615, S: "a"}}, Exprs: []*Expr{{Op: "greatest", A: &Expr{Op: "intdiv", A: f(2), B: f(0)}, B: lit(255)}, {Op: "intdiv", A: f(2), B: f(0)}}})
 		wide := []string{"CREATE TABLE z (id INT PRIMARY KEY, d DECIMAL(50,0) NOT NULL, a BIGINT NOT NULL, t8 TINYINT UNSIGNED NOT NULL, t16 SMALLINT UNSIGNED NOT NULL, t24 MEDIUMINT UNSIGNED NOT NULL)",
 			"INSERT INTO z VALUES (1, 10000000000000000000000000000000000000000, 3, 5, 5, 5)"}
 		for _, q := range []string{"SELECT CASE WHEN a > 1 THEN d ELSE a END FROM z", "SELECT IF(a > 1, d, a), IFNULL(d, a) FROM z", "SELECT d FROM z UNION SELECT a FROM z", "SELECT -t8, -t16, -t24 FROM z", "SELECT -500 DIV t8 FROM z"} {
